@@ -304,6 +304,21 @@ def make_fault(gen, v, rng, kind=None):
     if kind == "wrong-kind":
         t = pick(lv)
         k = w.kind(t)
+        e = w.env_of(t)
+        pt = w.partner(t)
+        if e and pt in lv and v["env_ok"].get(e) and rng.random() < 0.35:
+            # an operation of the PARTNER's kind, operands given as (wrong kind, right kind), through the envelope;
+            # where possible an operation object that an earlier step already applied
+            seen = getattr(gen, "ops_seen", None) or []
+            fam = "pol" if w.kind(pt) == "P" else "fock"
+            cands = [(j, o) for j, o in enumerate(seen) if o["fam"] == fam and o["type"] not in ("Custom", "Expresion")]
+            if cands:
+                j, o = cands[int(rng.integers(0, len(cands)))]
+                st = {"k": "apply", "op": o, "op_id": j, "targets": [t, pt], "via": "env", "env": e, "fault": kind}
+            else:
+                op = {"fam": "pol", "type": "X"} if fam == "pol" else {"fam": "fock", "type": "Creation"}
+                st = {"k": "apply", "op": op, "targets": [t, pt], "via": "env", "env": e, "fault": kind}
+            return st
         if k == "P":
             op = {"fam": "fock", "type": "Creation"}
         elif k == "F":
